@@ -86,8 +86,8 @@ def command_of(s, by_out):
         parts.append("msvc=1")
         if getattr(s, "notes_last", False):
             parts.append("nl=1")
-    if s.restat or getattr(s, "dyn_restat", False):
-        parts.append("restat=1")   # the tool writes only on change, whoever declares restat
+    if s.restat or getattr(s, "dyn_restat", False) or getattr(s, "tool_restat", False):
+        parts.append("restat=1")   # the tool writes only on change, whoever declares restat (tool_restat: nobody does)
     if s.generator:
         parts.append("gen=1")
     if s.copy:
@@ -423,7 +423,7 @@ def standard_ops(variants, files, js=(1, 3), with_faults=True, with_rm=True, tar
         by_out = v0.by_out()
         done = 0
         for s in cmd_stmts:
-            if s.restat or s.generator or getattr(s, "dyn_restat", False) or s.copy:
+            if s.restat or s.generator or getattr(s, "dyn_restat", False) or getattr(s, "tool_restat", False) or s.copy:
                 continue
             reads = [x for x in expand_reads(s.ex + s.im, by_out) + s.hidden if x in srcs]
             if not reads or done >= 2:
